@@ -148,10 +148,14 @@ impl<'a, I: VecIndex, T: VecValue, V: ReadableVec<I, T> + ?Sized> Cursor<'a, I, 
         self.buf_start = aligned;
         self.source.read_into_at(aligned, end, &mut self.buf);
 
-        if self.buf.is_empty() {
-            None
+        // The source may hand back fewer elements than the chunk asked for (deleted slots
+        // are skipped, a lazy vec may be shorter than its reported length): never index
+        // past what was read, and never ask for the same chunk again in a loop.
+        let local = at - aligned;
+        if local < self.buf.len() {
+            Some(local)
         } else {
-            Some(at - aligned)
+            None
         }
     }
 }
